@@ -451,6 +451,10 @@ def run(ctx):
                        "both, set/dict/list membership. Non-trivial = pair that compares equal, or mixes kinds, or "
                        "raises; distinct by operand specs.")
     ctx.assumptions += [
+        "coq/C17/Gen.v: the pointer branch `if (v_is_ptr && w_is_ptr) {...}` of cdata_richcompare (per operator: "
+        "operands, relation, char* = unsigned or signed cast / signed difference), regenerated on every run (fail "
+        "closed to the snapshot); the model's pointer comparison is defined from it and C17_ptr_compare, "
+        "C17_eq_implies_hash, C17_compare_swap are re-proved on the current text",
         "hand-written model C17/Model.v of cdata_richcompare/cdata_hash inside CPython's do_richcompare protocol; "
         "tied by this run's differential test",
         "Section hypothesis py_eq_hash: x == y -> hash(x) == hash(y) on the non-cdata values involved (CPython's "
